@@ -5,7 +5,7 @@ C10 driver.  case (see harness/src/bin/c10.rs):
    "req":{"path","host","scheme","method","hdrs":[[n,v]..]},
    "inst":[[name,value]..]?, "delim":bool?}
 "m" = the model: `Rule.matches`, `Rule.capture` with the executable engine, `Rule.outcomes` (sequential replace with the
-      sorted variable list, over every iteration order of the captured map);
+      variable list in the code's total order: longest first, equal lengths by name);
 "s" = the specification: match ⇔ every instantiated value is accepted (only when the request is the instantiation of a
       delimiter-separated rule, `inst` + `delim`; otherwise no claim: the model's bit), and ONE outcome, the
       simultaneous longest-match substitution `subst` with the instantiation's values (the model's captures when there is
@@ -122,7 +122,7 @@ agree once the `@`s of the values are neutralised; `join`: they still differ and
 def substCause (vs : List (Str × Str)) (ts : List Str) : String :=
   let vs' := neutralise vs
   if !namesNoAt vs then "name-contains-at"
-  else if ts.all (fun t => replaceVars t (sortByLen vs') == subst vs' t) then
+  else if ts.all (fun t => replaceVars t (sortVars vs') == subst vs' t) then
     (if !valuesNoAt vs then "value-contains-at" else "substitution-unexplained")
   else if !(ts.all fun t => noJoin vs' t) then "join"
   else "substitution-unexplained"
@@ -132,7 +132,7 @@ def handleSub (j : Json) : Except String Json := do
   let vs ← pairList j "vars"
   if vs.isEmpty then throw "no variables"
   let ts ← strList j "ts"
-  let sorted := sortByLen vs
+  let sorted := sortVars vs
   let jv (l : List (Str × Str)) : Json := Json.arr (l.map fun p => Json.arr #[toJson (S p.1), toJson (S p.2)]).toArray
   let m := Json.mkObj [("vars", jv sorted), ("outs", toJson (ts.map fun t => S (replaceVars t sorted)))]
   -- names containing `@` are outside the property's quantifier: no claim
